@@ -637,6 +637,10 @@ class _NM3:
             return
         m = _rot_sample(S)
         i = S.rng.randrange(3)
+        if S.rng.random() < 0.35:       # rows along a coordinate axis, either direction (the special cases of the code)
+            row = [0.0, 0.0, 0.0]
+            row[S.rng.randrange(3)] = S.rng.choice([1.0, -1.0])
+            m[3 * i:3 * i + 3] = row
         yield 'one-row', {'matrix': [m[k] if k // 3 == i else None for k in range(9)]}
 
     def ensures(result, matrix):
